@@ -72,23 +72,6 @@ static void op_sc_op(void) {
     else out_int(-98);
 }
 
-/* points on the wire: 64 bytes x||y, all-zero = infinity (same as pubkey objects) */
-static void ge_from_wire(secp256k1_ge *g, const unsigned char *c64) {
-    secp256k1_fe x, y;
-    if (all_zero(c64, 64)) { secp256k1_ge_set_infinity(g); return; }
-    secp256k1_fe_set_b32_mod(&x, c64); secp256k1_fe_set_b32_mod(&y, c64 + 32); secp256k1_ge_set_xy(g, &x, &y);
-}
-static void gej_from_wire(secp256k1_gej *j, const unsigned char *c64, const unsigned char *z32) {
-    secp256k1_ge g; secp256k1_fe z; ge_from_wire(&g, c64); secp256k1_gej_set_ge(j, &g);
-    if (z32 && !all_zero(z32, 32) && !g.infinity) { secp256k1_fe_set_b32_mod(&z, z32); if (!secp256k1_fe_normalizes_to_zero_var(&z)) secp256k1_gej_rescale(j, &z); }
-}
-static void out_ge(const secp256k1_ge *g) {
-    unsigned char c[64]; secp256k1_ge t = *g;
-    if (t.infinity) { memset(c, 0, 64); } else { secp256k1_fe_normalize(&t.x); secp256k1_fe_normalize(&t.y); secp256k1_fe_get_b32(c, &t.x); secp256k1_fe_get_b32(c + 32, &t.y); }
-    out_bytes(c, 64);
-}
-static void out_gej(secp256k1_gej *j) { secp256k1_ge g; secp256k1_gej t = *j; secp256k1_ge_set_gej_var(&g, &t); out_ge(&g); }
-
 /* ge_op <name> P64 Q64 zP32 zQ32 */
 static void op_ge_op(void) {
     char nm[32] = {0}; secp256k1_gej a, b, r; secp256k1_ge ga, gb, gr; secp256k1_fe rzr;
@@ -203,8 +186,17 @@ static void op_sha256_midstate(void) {   /* tag: state after SHA256(tag)||SHA256
     secp256k1_sha256_write(hc, &h, B(1), L(1)); secp256k1_sha256_finalize(hc, &h, out); out_bytes(out, 32);
 }
 
+#if defined(SECP256K1_WIDEMUL_INT128)
+/* raw limb-level entry points (translator validation): #a0..#a4 #b0..#b4 -> #r0..#r4 */
+static void op_fe_mul_inner_raw(void) { uint64_t a[5], b[5], r[5]; int i; for (i = 0; i < 5; i++) { a[i] = U(i); b[i] = U(5 + i); } secp256k1_fe_mul_inner(r, a, b); for (i = 0; i < 5; i++) out_u64(r[i]); }
+static void op_fe_sqr_inner_raw(void) { uint64_t a[5], r[5]; int i; for (i = 0; i < 5; i++) a[i] = U(i); secp256k1_fe_sqr_inner(r, a); for (i = 0; i < 5; i++) out_u64(r[i]); }
+#else
+static void op_fe_mul_inner_raw(void) { out_int(-98); }
+static void op_fe_sqr_inner_raw(void) { out_int(-98); }
+#endif
+
 static const op_entry ops_kernel[] = {
-    OP(fe_op), OP(sc_op), OP(ge_op), OP(ge_set_all), OP(ecmult), OP(ecmult_gen), OP(ecmult_const), OP(ecmult_const_xonly),
+    OP(fe_mul_inner_raw), OP(fe_sqr_inner_raw), OP(fe_op), OP(sc_op), OP(ge_op), OP(ge_set_all), OP(ecmult), OP(ecmult_gen), OP(ecmult_const), OP(ecmult_const_xonly),
     OP(ecmult_multi), OP(wnaf), OP(sha256_chunks), OP(hmac_chunks), OP(rfc6979_multi), OP(sha256_midstate),
     {NULL, NULL}
 };
